@@ -6,6 +6,9 @@ import (
 	"regexp"
 	"runtime"
 	"runtime/debug"
+	"strings"
+	"sync/atomic"
+	"time"
 )
 
 // Engine hist — one long-lived instance, a seeded history of operations, every
@@ -14,6 +17,53 @@ import (
 var refModel = NewRefModel(0x5eed)
 
 var suffixRe = regexp.MustCompile(`^(.*)-(\d+)$`)
+
+// histProgress: index of the operation the history in execution has reached (written by the
+// goroutine running execHist, read by the watchdog of execHistDeadline).
+var histProgress atomic.Int64
+
+// execHistDeadline runs a history under a hang watchdog: an operation that has not returned
+// after hangAfter (a conversion takes milliseconds) is reported as class "hang" at that
+// operation - a call that neither returns an error nor succeeds, typically because an earlier
+// call that failed half way left a lock held. The stuck goroutine cannot be stopped; the
+// worker reports and stops (see histWorker), as the wfault engine does.
+func execHistDeadline(spec *RunSpec, st *Stats) *Violation {
+	if hung {
+		return nil
+	}
+	ch := make(chan *Violation, 1)
+	histProgress.Store(-1)
+	go func() { ch <- execHist(spec, st) }()
+	tick := time.NewTicker(time.Second)
+	defer tick.Stop()
+	last, same := int64(-2), 0
+	for {
+		select {
+		case v := <-ch:
+			return v
+		case <-tick.C:
+			cur := histProgress.Load()
+			if cur != last {
+				last, same = cur, 0
+				continue
+			}
+			same++
+			if time.Duration(same)*time.Second >= hangAfter {
+				hung = true
+				op := int(cur)
+				if op < 0 {
+					op = 0
+				}
+				desc := ""
+				if op < len(spec.Clients[0]) {
+					desc = " (" + spec.Clients[0][op].String() + ")"
+				}
+				return &Violation{Class: "hang", Client: 0, Op: op,
+					Detail: fmt.Sprintf("operation %d%s of the history did not return within %v (alone on a fresh instance it takes milliseconds): neither an error nor success is reported", op, desc, hangAfter)}
+			}
+		}
+	}
+}
 
 func execHist(spec *RunSpec, st *Stats) *Violation {
 	if len(spec.Clients) != 1 {
@@ -28,6 +78,7 @@ func execHist(spec *RunSpec, st *Stats) *Violation {
 	prevFailed := false
 	var prevDoc = -1
 	for i, op := range ops {
+		histProgress.Store(int64(i))
 		res := execOp(env, trees, 0, i, op, nil)
 		if res.Skipped {
 			continue
@@ -327,7 +378,23 @@ func genHistSpec(p *histParams, c *Corpus, run int) *RunSpec {
 			}
 		}
 	}
-	spec := &RunSpec{Property: p.prop, Engine: "hist", VerifSeed: p.verifSeed, Run: run, RunSeed: fmt.Sprintf("%#x", seed), Cfg: cfg, Docs: docs}
+	note := ""
+	// near-miss runs: a document is followed by itself with a blank inserted or removed inside or
+	// next to a run of punctuation
+	if rnm := root.Split("near-miss"); !shapeRun && rnm.Chance(1, 6) {
+		for i := 1; i < len(docs); i++ {
+			if len(docs[i-1]) > 0 && len(docs[i-1]) < 4000 && rnm.Chance(1, 2) {
+				docs[i] = nearMiss(rnm, docs[i-1])
+				note = "near-miss"
+			}
+		}
+	}
+	spec := &RunSpec{Property: p.prop, Engine: "hist", VerifSeed: p.verifSeed, Run: run, RunSeed: fmt.Sprintf("%#x", seed), Cfg: cfg, Docs: docs, Note: note}
+	if rg := root.Split("gap-run"); rg.Chance(1, 50) {
+		// c14: always a storm of failing calls; otherwise a storm in half of the fault-injecting runs
+		genGapRun(rg, spec, c14 || faulty && rg.Chance(1, 2))
+		return spec
+	}
 	var ops []Op
 	liveTrees := []int{}
 	nextDoc := 0
@@ -430,6 +497,102 @@ func genHistSpec(p *histParams, c *Corpus, run int) *RunSpec {
 	return spec
 }
 
+// gapSizes: numbers of calls between two uses of the same document. Whatever counts calls in
+// a narrow integer, stamps entries with a generation number, or evicts after so many uses
+// goes wrong at or next to a power of two (and only there).
+var gapSizes = []int{0, 1, 2, 3, 7, 8, 9, 15, 16, 17, 31, 32, 33, 63, 64, 65, 127, 128, 129, 253, 254, 255, 256, 257, 258, 511, 512, 513}
+
+// genGapRun: a long history of small calls in which the documents of the run come back
+// after exactly g unrelated calls, g from gapSizes (thorough: also 1023..1025): D, g fillers,
+// D, g' fillers, D ... The fillers share no heading text, label or footnote name with D
+// (unique tokens) and are tiny, so that a run of a thousand calls costs milliseconds.
+//
+// storm: the calls in between all meet a failing destination (a storm of failed calls on one
+// instance: whatever a failing call does not give back - a slot, a lock, a pooled buffer, a
+// counter - adds up until the instance stops answering or answers wrongly).
+func genGapRun(r *Rng, spec *RunSpec, storm bool) {
+	nMain := len(spec.Docs)
+	if nMain > 3 {
+		nMain = 3
+		spec.Docs = spec.Docs[:3]
+	}
+	for i, d := range spec.Docs {
+		if len(d) > 1500 {
+			spec.Docs[i] = d[:1500]
+		}
+	}
+	// fillers
+	nFill := r.Range(3, 9)
+	for i := 0; i < nFill; i++ {
+		u := uniq(r)
+		var d string
+		switch r.Intn(5) {
+		case 0:
+			d = "# " + u + "\n"
+		case 1:
+			d = u + "\n===\n\n[" + u + "]\n\n[" + u + "]: /" + u + "\n"
+		case 2:
+			d = "para " + u + "\n"
+		case 3:
+			d = "## " + u + "\n\ntext[^" + u + "]\n\n[^" + u + "]: note " + u + "\n"
+		default:
+			d = "- " + u + "\n- \"" + u + "\"\n"
+		}
+		spec.Docs = append(spec.Docs, []byte(d))
+	}
+	var ops []Op
+	use := func(d int) {
+		switch r.Intn(4) {
+		case 0:
+			ops = append(ops, Op{Kind: "ParseRender", Doc: d, Stack: "W1"})
+		default:
+			ops = append(ops, Op{Kind: "Convert", Doc: d, Stack: pick(r, []string{"W1", "W1", "W3"})})
+		}
+	}
+	budget := 1400
+	gaps := gapSizes
+	for rounds := r.Range(2, 6); rounds > 0 && len(ops) < budget; rounds-- {
+		for d := 0; d < nMain; d++ {
+			use(d)
+		}
+		g := pick(r, gaps) - (nMain - 1) // calls between two uses of the SAME main document
+		if r.Chance(1, 2) {
+			g = pick(r, gaps)
+		}
+		if g < 0 {
+			g = 0
+		}
+		for i := 0; i < g && len(ops) < budget; i++ {
+			o := Op{Kind: "Convert", Doc: nMain + r.Intn(nFill), Stack: "W1"}
+			if storm {
+				o.Stack = pick(r, []string{"W1", "W1", "W3", "W2:16"})
+				switch r.Intn(4) {
+				case 0:
+					o.Fault = &FaultPlan{Kind: "always"}
+				case 1:
+					o.Fault = &FaultPlan{Kind: "zero+err", J: 0}
+				case 2:
+					o.Fault = &FaultPlan{Kind: "short+err", K: r.Intn(12)}
+				default:
+					o.Fault = &FaultPlan{Kind: "full+err", J: 0}
+				}
+				if r.Chance(1, 4) {
+					o.Kind = "ParseRender"
+				}
+			}
+			ops = append(ops, o)
+		}
+	}
+	for d := 0; d < nMain; d++ {
+		use(d)
+	}
+	spec.Clients = [][]Op{ops}
+	spec.Note = "gap run"
+	if storm {
+		spec.Note = "gap run, storm of failing calls"
+	}
+}
+
 // genFault draws a fault plan; offsets up to maxK.
 func genFault(r *Rng, maxK int) *FaultPlan {
 	f := genFault0(r, maxK)
@@ -486,6 +649,22 @@ func histWorker(p *histParams, st *Stats) {
 			}
 		}
 		spec := genHistSpec(p, c, run)
+		if p.ctl == nil {
+			switch {
+			case strings.HasPrefix(spec.Note, "gap run, storm"):
+				st.Inc("probe.gap_runs_storm_of_failing_calls")
+			case strings.HasPrefix(spec.Note, "gap run"):
+				st.Inc("probe.gap_runs")
+			case spec.Note == "near-miss":
+				st.Inc("probe.near_miss_runs")
+			}
+			if n := len(spec.Clients[0]); n > 255 {
+				st.Inc("probe.histories_longer_than_255_ops")
+			}
+			if spec.Cfg.ErrRenderer {
+				st.Inc("probe.cfg_error_returning_node_renderers")
+			}
+		}
 		v := executeSpec(spec, st)
 		if p.ctl != nil {
 			if v != nil {
@@ -529,6 +708,9 @@ func histWorker(p *histParams, st *Stats) {
 		lastRun = run
 		if stopAtFirst && len(st.Violations) > 0 {
 			break
+		}
+		if hung {
+			break // a goroutine of this process is stuck inside the code under test
 		}
 	}
 	if p.ctl == nil && lastRun >= 0 && len(st.Violations) == 0 {
